@@ -239,7 +239,7 @@ func c15Processor(c *Check, P string, outer, C *ssa.Function, kind string) {
 					continue
 				}
 				k := fmt.Sprintf("%s return#%d", kind, i)
-				isNil := IsNilConst(r.Results[0])
+				isNil := RetNil(r, 0)
 				if kind == "command" {
 					c.Report(isNil, P+".O2", "UNKNOWN-COMMAND-ACKED", C, r.Pos(), k, "a command of another type is acknowledged (nil)")
 				} else if isNil {
@@ -394,7 +394,7 @@ func c15Bus(c *Check, P string, fn *ssa.Function, genField string, hooks []strin
 		}
 		if f != fn {
 			for _, r := range Returns(f) {
-				if IsNilConst(r.Results[len(r.Results)-1]) {
+				if RetNil(r, len(r.Results)-1) {
 					success = append(success, r)
 				}
 			}
@@ -458,7 +458,7 @@ func c15Bus(c *Check, P string, fn *ssa.Function, genField string, hooks []strin
 			}
 			if f != fn {
 				for _, r := range Returns(f) {
-					if IsNilConst(r.Results[len(r.Results)-1]) && !Dominates(f, sc, r) {
+					if RetNil(r, len(r.Results)-1) && !Dominates(f, sc, r) {
 						okDom = false
 					}
 				}
